@@ -55,10 +55,12 @@ CHECKS = {
     },
     "C06": {
         "engine": "tlc-trace", "design_ref": "DESIGN.md 3.9 Prec, 7 C06",
-        "technique": "Prec.tla: TLC enumerates all trees of each expression, selects the unique PrecCorrect tree (uniqueness checked per case) and compares with recorded Parser / GLRParser / stratified-grammar results",
+        "technique": "Prec.tla: TLC enumerates all trees of each expression, selects the unique PrecCorrect tree (uniqueness checked per case) and compares with recorded Parser / GLRParser / stratified-grammar results; PrecDesign.tla (design level, exhaustive TLC model checking: spec-built LALR table + Resolve.tla is deterministic and precedence-correct for every operator table over K operators) bound to the code by ResolvedWalk.tla (every cell of the real resolved table = Resolve of the unresolved cell)",
         "level": "For every operator table and expression of the explored space the real LR parser (all prefer-shift strategies off) constructs and returns the unique "
-                 "precedence-correct tree, GLRParser returns exactly that one tree, malformed expressions are rejected, and marks added to the stratified LALR(1) grammar change nothing.",
-        "note": "Trusted: TLC, the tagging of nested-list results. The design-level proof that LRTable!Resolve yields conflict-free tables (DESIGN 7 C06 a) is not built; assurance is code-level on the bounded space.",
+                 "precedence-correct tree, GLRParser returns exactly that one tree, malformed expressions are rejected, and marks added to the stratified LALR(1) grammar change nothing. "
+                 "Design level: for all operator tables over K = 2, 3 (thorough 4) operators the resolution rule yields a conflict-free table whose LR automaton builds the precedence-correct tree "
+                 "of every expression up to 7-9 tokens; every cell of the explored real tables (operator grammars and marked general grammars) equals the rule's result.",
+        "note": "Trusted: TLC, the tagging of nested-list results, the table dump (harness/real.table_json). Cells whose outcome depends on item order (a left-associative and a yielding reduction of the shift's priority in one cell; outside C06's scope) are counted, not judged.",
     },
     "C07": {
         "engine": "tlc-trace", "design_ref": "DESIGN.md 3.2, 7 C07",
